@@ -247,6 +247,8 @@ def gen_case(rng):
                 else:
                     doc = c12.pick_doc(rng, rng.choice(["setter", "observer", "soup"]))
                 op = {"op": "api_parse", "doc": doc[:8], "builder": builder, "ns": rng.random() < 0.8}
+                if rng.random() < 0.4:
+                    op["reuse"] = True      # a long-lived parser private to this thread
                 if rng.random() < 0.3:
                     op["op"] = "api_frag"
                     op["container"] = rng.choice(c12.FRAG_CONTAINERS)
@@ -274,9 +276,11 @@ def _api_tb(builder):
     return treebuilders.getTreeBuilder("etree")
 
 
-def run_api_op(op):
+def run_api_op(op, private=None):
     """One call through html5lib's public API with objects private to the
-    caller.  Never lets an exception escape: exceptions are outcomes."""
+    caller (`private`: the caller thread's own long-lived parsers, used when
+    the op says "reuse").  Never lets an exception escape: exceptions are
+    outcomes."""
     import html5lib
     from html5lib import treewalkers, serializer
     from . import c12
@@ -287,7 +291,13 @@ def run_api_op(op):
             cls = _api_tb(op["builder"])
             return ("ok", cls.__name__, sorted(k for k in ("documentClass", "elementClass") if hasattr(cls, k)))
         if kind in ("api_parse", "api_frag", "api_parse_bytes"):
-            p = html5lib.HTMLParser(tree=_api_tb(op["builder"]), namespaceHTMLElements=op.get("ns", True))
+            if op.get("reuse") and private is not None:
+                pk = (op["builder"], op.get("ns", True))
+                p = private.get(pk)
+                if p is None:
+                    p = private[pk] = html5lib.HTMLParser(tree=_api_tb(op["builder"]), namespaceHTMLElements=op.get("ns", True))
+            else:
+                p = html5lib.HTMLParser(tree=_api_tb(op["builder"]), namespaceHTMLElements=op.get("ns", True))
             if kind == "api_frag":
                 tree = p.parseFragment("".join(op["doc"]), container=op["container"])
             elif kind == "api_parse_bytes":
@@ -348,7 +358,8 @@ def execute(case):
 
     def make_fn(tspec):
         def fn():
-            return [run_api_op(op) for op in tspec["ops"]]
+            private = {}
+            return [run_api_op(op, private) for op in tspec["ops"]]
         return fn
     fns = [make_fn(t) for t in case["threads"]]
     if case.get("quanta") is not None:
